@@ -521,6 +521,13 @@ def run(chk):
   linked = len(tail) == 2 and {dotted(t.targets[0]) for t in tail} == {'a.target', 'b.target'} \
       and any(norm(t.value) in ('a.target', 'b.target') for t in tail) and \
       any('record_type' in norm(t.value) for t in tail)
+  if not linked and len(tail) == 2 and \
+      {dotted(t.targets[0]) for t in tail} == {'a.target', 'b.target'}:
+    # merged = TypeReference(record_type(result)); a.target = merged; b.target = merged
+    va, vb = tail[0].value, tail[1].value
+    linked = isinstance(va, ast.Name) and isinstance(vb, ast.Name) and va.id == vb.id and \
+        va.id in v.single_defs() and 'record_type' in norm(v.single_defs()[va.id]) and \
+        call_tail(v.single_defs()[va.id]) == 'TypeReference'
   chk.ob('C16-R2', linked, None, 'both references end on the same merged record of the requested kind',
          'after merging, a and b do not denote the same record type', fi=uf)
   uf_calls = [c for c in walk_local(uf.node) if isinstance(c, ast.Call) and call_tail(c) == 'Unify']
@@ -584,7 +591,18 @@ def run(chk):
   copies_are_fresh(chk, 'C16-R3')
   tg = repo.func('reference_algebra.TypeReference.Target')
   ci_ = m.cls('TypeReference')
-  ok = any(isinstance(x, ast.While) and 'WeMustGoDeeper' in norm(x.test)
+  def follows_targets(w):
+    """`while isinstance(x, TypeReference): x = x.target` - the same walk,
+    written over the targets instead of the references"""
+    t_ = w.test
+    if isinstance(t_, ast.Call) and call_tail(t_) == 'isinstance' and len(t_.args) == 2 and \
+        isinstance(t_.args[0], ast.Name) and dotted(t_.args[1]) == 'TypeReference':
+      v_ = t_.args[0].id
+      return any(isinstance(st, ast.Assign) and dotted(st.targets[0]) == v_ and
+                 norm(st.value) == '%s.target' % v_ for st in w.body) and any(
+          isinstance(r_, ast.Return) and dotted(r_.value) == v_ for r_ in walk_local(tg.node))
+    return False
+  ok = any(isinstance(x, ast.While) and ('WeMustGoDeeper' in norm(x.test) or follows_targets(x))
            for x in walk_local(tg.node)) or any(
       isinstance(c, ast.Call) and isinstance(c.func, ast.Attribute) and
       c.func.attr in returns_end_of_chain(ci_) for c in walk_local(tg.node))
